@@ -9,6 +9,22 @@ Lemma C11_pin_annotator : annotator_as_modelled = true.
 Proof. reflexivity. Qed.
 Print Assumptions C11_pin_annotator.
 
+(* pin: the base-phosphate / base-ribose class ladder (Zirbel et al.): per (base, donor atom) a class, or two ring atoms with
+   the classes for a cis / trans acceptor *)
+Lemma C11_pin_bph_ladder : bph_ladder =
+  [(("A", "C2"), inl 2); (("A", "N6"), inr (("N1", "C6"), (6, 7))); (("A", "C8"), inl 0); (("G", "N1"), inl 5);
+   (("G", "N2"), inr (("N3", "C2"), (1, 3))); (("G", "C8"), inl 0); (("C", "N4"), inr (("N3", "C4"), (6, 7))); (("C", "C5"), inl 9);
+   (("C", "C6"), inl 0); (("U", "N3"), inl 5); (("U", "C5"), inl 9); (("U", "C6"), inl 0); (("T", "N3"), inl 5); (("T", "C6"), inl 0);
+   (("T", "C7"), inl 9)]%string.
+Proof. reflexivity. Qed.
+Print Assumptions C11_pin_bph_ladder.
+
+(* pin: the Saenger classification table itself (bases in pair order, Leontis-Westhof class -> Saenger class) *)
+Lemma C11_pin_saenger_table : saenger_table =
+  [(("AA", "tWW"), "I"); (("AA", "tHH"), "II"); (("GG", "tWW"), "III"); (("GG", "tSS"), "IV"); (("AA", "tWH"), "V"); (("AA", "tHW"), "V"); (("GG", "cWH"), "VI"); (("GG", "cHW"), "VI"); (("GG", "tWH"), "VII"); (("GG", "tHW"), "VII"); (("AG", "cWW"), "VIII"); (("GA", "cWW"), "VIII"); (("AG", "cHW"), "IX"); (("GA", "cWH"), "IX"); (("AG", "tWS"), "X"); (("GA", "tSW"), "X"); (("AG", "tHS"), "XI"); (("GA", "tSH"), "XI"); (("UU", "tWW"), "XII"); (("TT", "tWW"), "XII"); (("UU", "cWW"), "XVI"); (("TT", "cWW"), "XVI"); (("CU", "tWW"), "XVII"); (("UC", "tWW"), "XVII"); (("CU", "cWW"), "XVIII"); (("UC", "cWW"), "XVIII"); (("CG", "cWW"), "XIX"); (("GC", "cWW"), "XIX"); (("AU", "cWW"), "XX"); (("UA", "cWW"), "XX"); (("AT", "cWW"), "XX"); (("TA", "cWW"), "XX"); (("AU", "tWW"), "XXI"); (("UA", "tWW"), "XXI"); (("AT", "tWW"), "XXI"); (("TA", "tWW"), "XXI"); (("CG", "tWW"), "XXII"); (("GC", "tWW"), "XXII"); (("AU", "cHW"), "XXIII"); (("UA", "cWH"), "XXIII"); (("AT", "cHW"), "XXIII"); (("TA", "cWH"), "XXIII"); (("AU", "tHW"), "XXIV"); (("UA", "tWH"), "XXIV"); (("AT", "tHW"), "XXIV"); (("TA", "tWH"), "XXIV"); (("AC", "tHW"), "XXV"); (("CA", "tWH"), "XXV"); (("AC", "tWW"), "XXVI"); (("CA", "tWW"), "XXVI"); (("GU", "tWW"), "XXVII"); (("UG", "tWW"), "XXVII"); (("GT", "tWW"), "XXVII"); (("TG", "tWW"), "XXVII"); (("GU", "cWW"), "XXVIII"); (("UG", "cWW"), "XXVIII"); (("GT", "cWW"), "XXVIII"); (("TG", "cWW"), "XXVIII")]%string.
+Proof. reflexivity. Qed.
+Print Assumptions C11_pin_saenger_table.
+
 Definition swap2 (s : string) : string :=
   match list_ascii_of_string s with [a; b] => string_of_list_ascii [b; a] | _ => s end.
 (* LeontisWesthof.reverse: name[perm0] name[perm1] name[perm2] *)
